@@ -786,17 +786,18 @@ theorem lemma_wlookup_set_other (st : WinStore) (k k2 : Bytes) (w : Win) (hne : 
 
 /-- the two steps of request `i`, run back to back, are `serve1` -/
 theorem lemma_step_pair (cfg : WinCfg) (txt : Bytes) (reqs : List WinReq) (s : WinState) (i : Nat) (q : WinReq)
-    (hq : reqs[i]? = some q) :
+    (ha : cfg.atomic = false) (hq : reqs[i]? = some q) :
     stepWin cfg txt reqs (stepWin cfg txt reqs s (.get i)) (.inc i) =
       { store := (serve1 cfg txt s.store q).1,
         pending := (i, decide_ cfg.limit cfg.W (getCounts cfg.W (s.store.lookup q.key) q.now) q.now) :: s.pending,
         answers := s.answers ++ [(i, (serve1 cfg txt s.store q).2)] } := by
-  simp only [stepWin, hq, List.lookup_cons, beq_self_eq_true, lemma_wlookup_set_self, serve1]
+  simp only [stepWin, ha, Bool.false_eq_true, if_false, hq, List.lookup_cons, beq_self_eq_true,
+    lemma_wlookup_set_self, serve1]
   rw [lemma_wset_set]
 
 /-- running the serial schedule from request `pre.length` on is `runSerial` -/
 theorem lemma_serial_fold (cfg : WinCfg) (txt : Bytes) (reqs : List WinReq) (rest pre : List WinReq) (s : WinState)
-    (hreqs : reqs = pre ++ rest) :
+    (ha : cfg.atomic = false) (hreqs : reqs = pre ++ rest) :
     (((List.range' pre.length rest.length).flatMap fun i => [Op.get i, Op.inc i]).foldl (stepWin cfg txt reqs) s).answers
       = s.answers ++ runSerial cfg txt s.store pre.length rest := by
   induction rest generalizing pre s with
@@ -804,7 +805,7 @@ theorem lemma_serial_fold (cfg : WinCfg) (txt : Bytes) (reqs : List WinReq) (res
   | cons q rest ih =>
     have hq : reqs[pre.length]? = some q := by rw [hreqs]; simp
     simp only [List.length_cons, List.range'_succ, List.flatMap_cons, List.foldl_append, List.foldl_cons, List.foldl_nil]
-    rw [lemma_step_pair cfg txt reqs s pre.length q hq]
+    rw [lemma_step_pair cfg txt reqs s pre.length q ha hq]
     have := ih (pre ++ [q])
       (⟨(serve1 cfg txt s.store q).1,
         (pre.length, decide_ cfg.limit cfg.W (getCounts cfg.W (s.store.lookup q.key) q.now) q.now) :: s.pending,
@@ -814,11 +815,11 @@ theorem lemma_serial_fold (cfg : WinCfg) (txt : Bytes) (reqs : List WinReq) (res
     simp [runSerial]
 
 /-- **the serial schedule is `runSerial`** -/
-theorem lemma_runWin_serial (cfg : WinCfg) (txt : Bytes) (reqs : List WinReq) :
+theorem lemma_runWin_serial (cfg : WinCfg) (txt : Bytes) (reqs : List WinReq) (ha : cfg.atomic = false) :
     runWin cfg txt reqs (serial reqs.length) = runSerial cfg txt [] 0 reqs := by
   unfold runWin serial
   rw [List.range_eq_range']
-  have := lemma_serial_fold cfg txt reqs reqs [] { store := [], pending := [], answers := [] } rfl
+  have := lemma_serial_fold cfg txt reqs reqs [] { store := [], pending := [], answers := [] } ha rfl
   simpa using this
 
 /-! ### the counting invariant -/
@@ -1052,7 +1053,7 @@ theorem lemma_admitted_serial (cfg : WinCfg) (txt : Bytes) (reqs rest pre : List
     key and fixed window no more than `limit` requests reach the handler — any number of keys, any
     number of windows, rejected requests and carried-over counts included. -/
 theorem window_sequential_bound (cfg : WinCfg) (txt : Bytes) (reqs : List WinReq) (hW : 1 ≤ cfg.W)
-    (hsorted : reqs.Pairwise (fun a b => a.now ≤ b.now)) :
+    (ha : cfg.atomic = false) (hsorted : reqs.Pairwise (fun a b => a.now ≤ b.now)) :
     windowBoundOK cfg reqs (runWin cfg txt reqs (serial reqs.length)) = true := by
   unfold windowBoundOK
   by_cases hrep : (!cfg.enforce && !cfg.hasCallback) = true
@@ -1061,7 +1062,7 @@ theorem window_sequential_bound (cfg : WinCfg) (txt : Bytes) (reqs : List WinReq
     simp only [hrep', Bool.false_eq_true, if_false]
     have henf : cfg.enforce = true ∨ cfg.hasCallback = true := by
       cases he : cfg.enforce <;> cases hc : cfg.hasCallback <;> simp [he, hc] at hrep' ⊢
-    rw [lemma_runWin_serial]
+    rw [lemma_runWin_serial _ _ _ ha]
     have hadm := lemma_admitted_serial cfg txt reqs reqs [] [] rfl
     simp only [List.length_nil] at hadm
     rw [hadm]
@@ -1078,8 +1079,9 @@ theorem lemma_winAnswer_reject (cfg : WinCfg) (txt : Bytes) (d : Decision) :
   unfold winAnswer
   by_cases h : d.usage ≥ cfg.limit <;> cases cfg.hasCallback <;> cases cfg.enforce <;> simp [h]
 
-/-- **429 always comes with `Retry-After`** — every schedule, serial or not: whenever the
-    sliding-window middleware answers 429 it sends a `Retry-After` and the handler does not run -/
+/-- **429 always comes with `Retry-After`** — every schedule, serial or not, either kind of store:
+    whenever the sliding-window middleware answers 429 it sends a `Retry-After` and the handler does
+    not run -/
 theorem window_reject_has_retry_after (cfg : WinCfg) (txt : Bytes) (reqs : List WinReq) (sched : List Op) :
     rejectOK (runWin cfg txt reqs sched) = true := by
   unfold rejectOK runWin
@@ -1096,54 +1098,434 @@ theorem window_reject_has_retry_after (cfg : WinCfg) (txt : Bytes) (reqs : List 
       cases op with
       | get i =>
         simp only [stepWin]
-        split <;> exact h
+        split
+        · exact h
+        · split
+          · simp only [List.all_append, h, Bool.true_and, List.all_cons, List.all_nil, Bool.and_true]
+            exact lemma_winAnswer_reject cfg txt _
+          · exact h
       | inc i =>
         simp only [stepWin]
         split
-        · simp only [List.all_append, h, Bool.true_and, List.all_cons, List.all_nil, Bool.and_true]
-          exact lemma_winAnswer_reject cfg txt _
         · exact h
+        · split
+          · simp only [List.all_append, h, Bool.true_and, List.all_cons, List.all_nil, Bool.and_true]
+            exact lemma_winAnswer_reject cfg txt _
+          · exact h
   exact key sched _ rfl
 
-/-- the classes of inputs the two recorded findings live in, as the driver computes them: a schedule
-    that is not serial (K16b race) and a case that retries after Retry-After (K16b truthfulness) -/
-def Excluded (reqs : List WinReq) (sched : List Op) (retries : List (Nat × Nat)) : Prop :=
-  sched ≠ serial reqs.length ∨ retries ≠ []
+/-! ## sliding window over a store that counts atomically (`AtomicWindowStore`): every interleaving -/
 
-/-- **the sliding-window oracle holds outside the two recorded classes** -/
+/-- the requests an atomic store serves, in the order of their `IncrAndGetCounts` steps -/
+def servedOf (reqs : List WinReq) (sched : List Op) : List (Nat × WinReq) :=
+  sched.filterMap fun
+    | .get i => (reqs[i]?).map fun q => (i, q)
+    | .inc _ => none
+
+def runSeq (cfg : WinCfg) (txt : Bytes) : WinStore → List (Nat × WinReq) → List (Nat × WinObs)
+  | _, [] => []
+  | st, iq :: rest => (iq.1, (serve1 cfg txt st iq.2).2) :: runSeq cfg txt (serve1 cfg txt st iq.2).1 rest
+
+/-- with an atomic store **every** schedule — any interleaving of the requests' steps — is the
+    one-after-the-other service of the requests in the order of their `IncrAndGetCounts` calls -/
+theorem lemma_atomic_fold (cfg : WinCfg) (txt : Bytes) (reqs : List WinReq) (ha : cfg.atomic = true)
+    (sched : List Op) (s : WinState) :
+    (sched.foldl (stepWin cfg txt reqs) s).answers = s.answers ++ runSeq cfg txt s.store (servedOf reqs sched) := by
+  induction sched generalizing s with
+  | nil => simp [servedOf, runSeq]
+  | cons op rest ih =>
+    simp only [List.foldl_cons]
+    rw [ih]
+    cases op with
+    | inc i => simp [stepWin, ha, servedOf]
+    | get i =>
+      cases hq : reqs[i]? with
+      | none => simp [stepWin, hq, servedOf]
+      | some q => simp [stepWin, hq, ha, servedOf, runSeq, serve1, List.append_assoc]
+
+theorem lemma_served_mem (reqs : List WinReq) (sched : List Op) (iq : Nat × WinReq)
+    (h : iq ∈ servedOf reqs sched) : reqs[iq.1]? = some iq.2 := by
+  unfold servedOf at h
+  rw [List.mem_filterMap] at h
+  obtain ⟨op, _, hop⟩ := h
+  cases op with
+  | inc i => simp at hop
+  | get i =>
+    simp only [Option.map_eq_some_iff] at hop
+    obtain ⟨q, hq, he⟩ := hop
+    rw [← he]; exact hq
+
+theorem lemma_admitted_seq (cfg : WinCfg) (txt : Bytes) (reqs : List WinReq) (l : List (Nat × WinReq)) (st : WinStore)
+    (hl : ∀ iq ∈ l, reqs[iq.1]? = some iq.2) :
+    (runSeq cfg txt st l).filterMap (admittedOf cfg reqs) = admSerial cfg txt st (l.map (·.2)) := by
+  induction l generalizing st with
+  | nil => simp [runSeq, admSerial]
+  | cons iq rest ih =>
+    have hq := hl iq (List.mem_cons_self ..)
+    have := ih (serve1 cfg txt st iq.2).1 (fun x hx => hl x (List.mem_cons_of_mem _ hx))
+    simp only [runSeq, List.map_cons, admSerial, List.filterMap_cons]
+    unfold admittedOf adm1
+    simp only [hq]
+    by_cases hran : (serve1 cfg txt st iq.2).2.ran = true
+    · simp only [hran, if_true, List.cons_append, List.nil_append]
+      rw [← this]; rfl
+    · have hran' : (serve1 cfg txt st iq.2).2.ran = false := by simpa using hran
+      simp only [hran', Bool.false_eq_true, if_false, List.nil_append]
+      rw [← this]; rfl
+
+/-- **Sliding window over an atomic store, every interleaving**: whatever the schedule — any number
+    of requests in flight at once, their steps interleaved in any way — per key and fixed window no
+    more than `limit` requests reach the handler. (Hypothesis: the clock readings are non-decreasing
+    in the order in which the store serves the calls.) -/
+theorem window_atomic_bound (cfg : WinCfg) (txt : Bytes) (reqs : List WinReq) (sched : List Op) (hW : 1 ≤ cfg.W)
+    (ha : cfg.atomic = true)
+    (hsorted : ((servedOf reqs sched).map (·.2)).Pairwise (fun a b => a.now ≤ b.now)) :
+    windowBoundOK cfg reqs (runWin cfg txt reqs sched) = true := by
+  unfold windowBoundOK
+  by_cases hrep : (!cfg.enforce && !cfg.hasCallback) = true
+  · simp only [hrep, if_true]
+  · have hrep' : (!cfg.enforce && !cfg.hasCallback) = false := by simpa using hrep
+    simp only [hrep', Bool.false_eq_true, if_false]
+    have henf : cfg.enforce = true ∨ cfg.hasCallback = true := by
+      cases he : cfg.enforce <;> cases hc : cfg.hasCallback <;> simp [he, hc] at hrep' ⊢
+    have hrun : runWin cfg txt reqs sched = runSeq cfg txt [] (servedOf reqs sched) := by
+      unfold runWin
+      rw [lemma_atomic_fold cfg txt reqs ha]
+      simp
+    rw [hrun, lemma_admitted_seq cfg txt reqs _ _ (lemma_served_mem reqs sched)]
+    rw [List.all_eq_true]
+    intro kw _
+    have := lemma_window_count cfg txt hW henf [] _ hsorted (by intro k w h; simp at h) kw.1 kw.2
+    simp only [decide_eq_true_eq]
+    have hc : counted [] kw.1 kw.2 = 0 := rfl
+    rw [hc, Nat.sub_zero] at this
+    exact this
+
+/-- the serial schedule serves the requests in their order -/
+theorem lemma_served_serial_aux (reqs rest pre : List WinReq) (hreqs : reqs = pre ++ rest) :
+    (servedOf reqs ((List.range' pre.length rest.length).flatMap fun i => [Op.get i, Op.inc i])).map (·.2) = rest := by
+  induction rest generalizing pre with
+  | nil => simp [servedOf]
+  | cons q rest ih =>
+    have hq : reqs[pre.length]? = some q := by rw [hreqs]; simp
+    have := ih (pre ++ [q]) (by rw [hreqs]; simp)
+    simp only [List.length_append, List.length_cons, List.length_nil, Nat.zero_add] at this
+    simp only [List.length_cons, List.range'_succ, List.flatMap_cons]
+    unfold servedOf at this ⊢
+    simp only [List.cons_append, List.nil_append, List.filterMap_cons, hq, Option.map_some, List.map_cons]
+    rw [this]
+
+theorem lemma_served_serial (reqs : List WinReq) : (servedOf reqs (serial reqs.length)).map (·.2) = reqs := by
+  unfold serial
+  rw [List.range_eq_range']
+  simpa using lemma_served_serial_aux reqs reqs [] rfl
+
+/-! ## sliding window: `Retry-After` is truthful -/
+
+theorem lemma_ws_le (W t : Nat) : windowStart W t * nsPerSec ≤ t := by
+  unfold windowStart
+  have h := Nat.div_mul_le_self (t + zeroOffset * nsPerSec) (W * nsPerSec)
+  rw [Nat.sub_mul]
+  have : (t + zeroOffset * nsPerSec) / (W * nsPerSec) * W * nsPerSec
+       = (t + zeroOffset * nsPerSec) / (W * nsPerSec) * (W * nsPerSec) := Nat.mul_assoc ..
+  omega
+
+theorem lemma_ws_next (W t : Nat) (hW : 1 ≤ W) : t < (windowStart W t + W) * nsPerSec := by
+  unfold windowStart
+  have hpos : 0 < W * nsPerSec := Nat.mul_pos hW (by unfold nsPerSec; omega)
+  have h := Nat.lt_mul_div_succ (t + zeroOffset * nsPerSec) hpos
+  have e1 : W * nsPerSec * ((t + zeroOffset * nsPerSec) / (W * nsPerSec) + 1)
+       = (t + zeroOffset * nsPerSec) / (W * nsPerSec) * W * nsPerSec + W * nsPerSec := by
+    rw [Nat.mul_add, Nat.mul_one, Nat.mul_comm, Nat.mul_assoc]
+  rw [e1] at h
+  rw [Nat.add_mul, Nat.sub_mul]
+  omega
+
+/-- same window: once `p·e' > Wn·(p − (L − c))` the estimate `c + p·(1 − e'/Wn)` is below `L` -/
+theorem lemma_retry_same (Wn c p L e' : Nat) (hcL : c < L) (he : e' ≤ Wn)
+    (h : Wn * (p - (L - c)) < p * e') : c * Wn + p * (Wn - e') < L * Wn := by
+  have e1 : p * (Wn - e') = Wn * p - p * e' := by rw [Nat.mul_sub, Nat.mul_comm p Wn]
+  have e2 : Wn * (p - (L - c)) = Wn * p - (Wn * L - Wn * c) := by rw [Nat.mul_sub, Nat.mul_sub]
+  rw [e1, Nat.mul_comm c Wn, Nat.mul_comm L Wn]
+  rw [e2] at h
+  have h1 : p * e' ≤ Wn * p := by rw [Nat.mul_comm Wn p]; exact Nat.mul_le_mul_left _ he
+  have hp : 0 < Wn := by
+    rcases Nat.eq_zero_or_pos Wn with h0 | hp
+    · subst h0; have : e' = 0 := by omega
+      subst this; simp at h
+    · exact hp
+  have h2 : Wn * c < Wn * L := Nat.mul_lt_mul_of_pos_left hcL hp
+  omega
+
+/-- next window: once `c·e' > Wn·(c − L)` the carried-over estimate `c·(1 − e'/Wn)` is below `L` -/
+theorem lemma_retry_next (Wn c L e' : Nat) (hL : 1 ≤ L) (hWn : 1 ≤ Wn) (he : e' ≤ Wn)
+    (h : Wn * (c - L) < c * e') : c * (Wn - e') < L * Wn := by
+  have e1 : c * (Wn - e') = Wn * c - c * e' := by rw [Nat.mul_sub, Nat.mul_comm c Wn]
+  have e2 : Wn * (c - L) = Wn * c - Wn * L := Nat.mul_sub ..
+  rw [e1, Nat.mul_comm L Wn]
+  rw [e2] at h
+  have h1 : c * e' ≤ Wn * c := by rw [Nat.mul_comm Wn c]; exact Nat.mul_le_mul_left _ he
+  have h3 : 1 ≤ Wn * L := Nat.mul_pos hWn hL
+  omega
+
+section
+attribute [local irreducible] windowStart
+
+/-- the estimate a request at `t'` sees on an entry `w1`, split by where `t'` falls: in the entry's
+    window, in the window right after it, or after an idle gap (then nothing is carried over) -/
+theorem lemma_retry_goal (L W : Nat) (hW : 1 ≤ W) (hL : 1 ≤ L) (w1 : Win) (t' : Nat)
+    (hA : windowStart W t' = w1.ws →
+      w1.cur * (W * nsPerSec) + w1.prev * (W * nsPerSec - min (t' - w1.ws * nsPerSec) (W * nsPerSec)) < L * (W * nsPerSec))
+    (hB : w1.ws < windowStart W t' → ¬ w1.ws + W < windowStart W t' →
+      w1.cur * (W * nsPerSec - min (t' - windowStart W t' * nsPerSec) (W * nsPerSec)) < L * (W * nsPerSec))
+    (hle : w1.ws ≤ windowStart W t') :
+    (decide_ L W (getCounts W (some w1) t') t').usage < L := by
+  have hns : (1 : Nat) ≤ nsPerSec := by unfold nsPerSec; omega
+  have hWn : 1 ≤ W * nsPerSec := Nat.mul_pos hW hns
+  have hg : getCounts W (some w1) t' =
+      if w1.ws < windowStart W t' then { cur := 0, prev := carried W w1 (windowStart W t'), ws := windowStart W t' }
+      else w1 := rfl
+  rw [hg]
+  by_cases hroll : w1.ws < windowStart W t'
+  · rw [if_pos hroll]
+    simp only [decide_, elapsedNs]
+    rw [Nat.div_lt_iff_lt_mul hWn]
+    simp only [Nat.zero_mul, Nat.zero_add]
+    unfold carried
+    by_cases hgap : w1.ws + W < windowStart W t'
+    · simp only [hgap, if_true, Nat.zero_mul]
+      exact Nat.mul_pos hL hWn
+    · simp only [hgap, if_false]
+      exact hB hroll hgap
+  · rw [if_neg hroll]
+    simp only [decide_, elapsedNs]
+    rw [Nat.div_lt_iff_lt_mul hWn]
+    exact hA (by omega)
+
+/-- what `Retry-After: R` promises, regime by regime: the instant `t'` of the retry lies strictly
+    after the instant at which the sliding estimate equals the limit -/
+theorem lemma_retry_regime (L Wn c p el t t' : Nat) (hL : 1 ≤ L)
+    (hlate : t + ((if L = 0 then 2 * Wn - el
+        else if c < L then (if 0 < p then Wn * (p - (L - c)) / p - el else 0)
+        else Wn - el + Wn * (c - L) / c) / nsPerSec + 1) * nsPerSec ≤ t') :
+    (c < L ∧ p = 0) ∨
+    (c < L ∧ 0 < p ∧ ∃ X, Wn * (p - (L - c)) < p * (X + 1) ∧ t + (X - el) < t') ∨
+    (L ≤ c ∧ ∃ Y, Wn * (c - L) < c * (Y + 1) ∧ t + (Wn - el + Y) < t') := by
+  have hns : 0 < nsPerSec := by unfold nsPerSec; omega
+  have hdiv : ∀ wait, t + (wait / nsPerSec + 1) * nsPerSec ≤ t' → t + wait < t' := by
+    intro wait h
+    have := Nat.lt_mul_div_succ wait hns
+    rw [Nat.mul_comm] at this
+    generalize wait / nsPerSec = d at *
+    generalize nsPerSec = n at *
+    generalize (d + 1) * n = m at *
+    omega
+  have hL0 : ¬ L = 0 := by omega
+  simp only [hL0, if_false] at hlate
+  by_cases hcl : c < L
+  · simp only [hcl, if_true] at hlate
+    by_cases hp : 0 < p
+    · simp only [hp, if_true] at hlate
+      exact Or.inr (Or.inl ⟨hcl, hp, _, Nat.lt_mul_div_succ _ hp, hdiv _ hlate⟩)
+    · exact Or.inl ⟨hcl, by omega⟩
+  · simp only [hcl, if_false] at hlate
+    have hc : 0 < c := by omega
+    exact Or.inr (Or.inr ⟨by omega, _, Nat.lt_mul_div_succ _ hc, hdiv _ hlate⟩)
+
+/-- **Sliding window, truthful `Retry-After`** (any entry that is not ahead of the clock, any counts,
+    `limit ≥ 1`, window ≥ 1 s): a request served at `t` and rejected is told `Retry-After: R`; the
+    key's next request, at any instant `t' ≥ t + R` seconds — in the same window, in the next one
+    or after an idle gap — sees a sliding estimate strictly below the limit, i.e. it is admitted.
+    `serve1` is the one-step service of an atomic store (and of a two-call store without a context
+    switch). -/
+theorem window_retry_truthful (cfg : WinCfg) (hW : 1 ≤ cfg.W) (hL : 1 ≤ cfg.limit) (e : Option Win) (t t' : Nat)
+    (he : ∀ w, e = some w → w.ws ≤ windowStart cfg.W t)
+    (hrej : cfg.limit ≤ (decide_ cfg.limit cfg.W (getCounts cfg.W e t) t).usage)
+    (hlate : t + (decide_ cfg.limit cfg.W (getCounts cfg.W e t) t).retry * nsPerSec ≤ t') :
+    (decide_ cfg.limit cfg.W
+      (getCounts cfg.W (some (incr cfg.W (some (getCounts cfg.W e t)) t)) t') t').usage < cfg.limit := by
+  obtain ⟨hws, _⟩ := lemma_getCounts cfg.W e t he
+  generalize getCounts cfg.W e t = w at hws hrej hlate
+  rw [lemma_incr_same cfg.W w t hws]
+  have hns : (1 : Nat) ≤ nsPerSec := by unfold nsPerSec; omega
+  have hWn : 1 ≤ cfg.W * nsPerSec := Nat.mul_pos hW hns
+  have hle : w.ws * nsPerSec ≤ t := by rw [hws]; exact lemma_ws_le cfg.W t
+  have hle' := lemma_ws_le cfg.W t'
+  have hnext' := lemma_ws_next cfg.W t' hW
+  rw [Nat.add_mul] at hnext'
+  simp only [decide_, retryAfter, elapsedNs] at hrej hlate
+  rw [Nat.le_div_iff_mul_le hWn] at hrej
+  have hreg := lemma_retry_regime cfg.limit (cfg.W * nsPerSec) (w.cur + 1) w.prev _ t t' hL hlate
+  clear hlate
+  generalize hWn' : cfg.W * nsPerSec = Wn at *
+  generalize hel : min (t - w.ws * nsPerSec) Wn = el at *
+  have hel1 : el ≤ t - w.ws * nsPerSec := by rw [← hel]; exact Nat.min_le_left _ _
+  clear hel
+  generalize hx : w.ws * nsPerSec = x at *
+  rcases hreg with ⟨hcl, hp0⟩ | ⟨hcl, hp, X, hX, hlt⟩ | ⟨hcl, Y, hY, hlt⟩
+  · -- nothing carried over and the count below the limit: the request was not rejected
+    exfalso
+    rw [hp0, Nat.zero_mul, Nat.add_zero] at hrej
+    have := Nat.le_of_mul_le_mul_right hrej hWn
+    omega
+  · clear hrej
+    have htt : windowStart cfg.W t ≤ windowStart cfg.W t' := lemma_windowStart_mono cfg.W t t' (by omega)
+    apply lemma_retry_goal cfg.limit cfg.W hW hL _ t'
+    · -- the retry is served in the window of the rejection
+      intro hsame
+      simp only at hsame ⊢
+      rw [hWn', hx]
+      generalize hel' : min (t' - x) Wn = el'
+      have hel'2 : el' ≤ Wn := by rw [← hel']; exact Nat.min_le_right _ _
+      apply lemma_retry_same Wn (w.cur + 1) w.prev cfg.limit el' hcl hel'2
+      by_cases hcase : el' = Wn
+      · rw [hcase]
+        have h1 : w.prev - (cfg.limit - (w.cur + 1)) ≤ w.prev - 1 := by omega
+        calc Wn * (w.prev - (cfg.limit - (w.cur + 1))) ≤ Wn * (w.prev - 1) := Nat.mul_le_mul_left _ h1
+          _ < Wn * w.prev := Nat.mul_lt_mul_of_pos_left (by omega) hWn
+          _ = w.prev * Wn := Nat.mul_comm ..
+      · have he'' : el' = t' - x := by
+          rw [← hel'] at hcase ⊢
+          rcases Nat.le_total (t' - x) Wn with h | h
+          · exact Nat.min_eq_left h
+          · exact absurd (Nat.min_eq_right h) hcase
+        have hge : X + 1 ≤ el' := by omega
+        exact Nat.lt_of_lt_of_le hX (Nat.mul_le_mul_left _ hge)
+    · -- the retry is served in the next window: a count below the limit is carried over
+      intro _ _
+      simp only
+      rw [hWn']
+      calc (w.cur + 1) * (Wn - min (t' - windowStart cfg.W t' * nsPerSec) Wn)
+          ≤ (w.cur + 1) * Wn := Nat.mul_le_mul_left _ (Nat.sub_le _ _)
+        _ < cfg.limit * Wn := Nat.mul_lt_mul_of_pos_right hcl hWn
+    · simp only; omega
+  · clear hrej
+    have htt : windowStart cfg.W t ≤ windowStart cfg.W t' := lemma_windowStart_mono cfg.W t t' (by omega)
+    apply lemma_retry_goal cfg.limit cfg.W hW hL _ t'
+    · -- the window of the rejection is over by then
+      intro hsame
+      exfalso
+      simp only at hsame
+      rw [hsame, hx] at hnext'
+      omega
+    · intro hroll hgap
+      simp only at hroll hgap ⊢
+      rw [hWn']
+      generalize hel' : min (t' - windowStart cfg.W t' * nsPerSec) Wn = el'
+      have hel'2 : el' ≤ Wn := by rw [← hel']; exact Nat.min_le_right _ _
+      apply lemma_retry_next Wn (w.cur + 1) cfg.limit el' hL hWn hel'2
+      have hws'le : windowStart cfg.W t' * nsPerSec ≤ x + Wn := by
+        rw [← hx, ← hWn', ← Nat.add_mul]; exact Nat.mul_le_mul_right _ (by omega)
+      by_cases hcase : el' = Wn
+      · rw [hcase, Nat.mul_sub, Nat.mul_comm (w.cur + 1) Wn]
+        have h1 : 1 ≤ Wn * cfg.limit := Nat.mul_pos hWn hL
+        have h2 : Wn * cfg.limit ≤ Wn * (w.cur + 1) := Nat.mul_le_mul_left _ hcl
+        omega
+      · have he'' : el' = t' - windowStart cfg.W t' * nsPerSec := by
+          rw [← hel'] at hcase ⊢
+          rcases Nat.le_total (t' - windowStart cfg.W t' * nsPerSec) Wn with h | h
+          · exact Nat.min_eq_left h
+          · exact absurd (Nat.min_eq_right h) hcase
+        have hge : Y + 1 ≤ el' := by
+          generalize windowStart cfg.W t' * nsPerSec = x' at *
+          omega
+        exact Nat.lt_of_lt_of_le hY (Nat.mul_le_mul_left _ hge)
+    · simp only; omega
+
+end
+
+/-- non-vacuity of `window_retry_truthful`, and the least-ness of the advertised wait on an example:
+    limit 2, window 2 s, three requests 0.1 s into a window; the third is told `Retry-After: 3`, the
+    retry 3 s later is admitted, a retry 2.003 s later (what the shipped code advertised) is not -/
+example :
+    let cfg : WinCfg := { limit := 2, W := 2, headers := true, enforce := true, hasCallback := false, atomic := true }
+    let w : Win := { cur := 2, prev := 0, ws := 10 }
+    cfg.limit ≤ (decide_ cfg.limit cfg.W (getCounts cfg.W (some w) 10102000000) 10102000000).usage ∧
+    (decide_ cfg.limit cfg.W (getCounts cfg.W (some w) 10102000000) 10102000000).retry = 3 ∧
+    (decide_ cfg.limit cfg.W (getCounts cfg.W (some { w with cur := 3 }) 13102000000) 13102000000).usage = 1 ∧
+    (decide_ cfg.limit cfg.W (getCounts cfg.W (some { w with cur := 3 }) 12105000000) 12105000000).usage = 2 := by
+  decide
+
+/-- the class of inputs the open finding lives in, as the driver computes it: a store that only has
+    the two-call interface (`GetCounts`, then `Incr`) driven by a schedule that is not serial — the
+    check-then-act race is inherent to that interface (K16b); and, not yet lifted from single entries
+    to whole traces, cases that contain a marked retry -/
+def Excluded (cfg : WinCfg) (reqs : List WinReq) (sched : List Op) (retries : List (Nat × Nat)) : Prop :=
+  (cfg.atomic = false ∧ sched ≠ serial reqs.length) ∨ retries ≠ []
+
+/-- **the sliding-window oracle holds outside the recorded class**: for an atomic store every
+    schedule, for a two-call store the serial one -/
 theorem window_meets_spec_partial (cfg : WinCfg) (txt : Bytes) (reqs : List WinReq) (sched : List Op)
-    (retries : List (Nat × Nat)) (hW : 1 ≤ cfg.W) (hsorted : reqs.Pairwise (fun a b => a.now ≤ b.now))
-    (hD : ¬ Excluded reqs sched retries) :
+    (retries : List (Nat × Nat)) (hW : 1 ≤ cfg.W)
+    (hsorted : ((servedOf reqs sched).map (·.2)).Pairwise (fun a b => a.now ≤ b.now))
+    (hD : ¬ Excluded cfg reqs sched retries) :
     (windowBoundOK cfg reqs (runWin cfg txt reqs sched) && retryOK reqs (runWin cfg txt reqs sched) retries &&
       rejectOK (runWin cfg txt reqs sched)) = true := by
   unfold Excluded at hD
-  have h1 : sched = serial reqs.length := Classical.byContradiction fun h => hD (Or.inl h)
   have h2 : retries = [] := Classical.byContradiction fun h => hD (Or.inr h)
-  subst h1 h2
-  rw [window_sequential_bound cfg txt reqs hW hsorted, window_reject_has_retry_after]
+  subst h2
+  have hb : windowBoundOK cfg reqs (runWin cfg txt reqs sched) = true := by
+    cases ha : cfg.atomic with
+    | true => exact window_atomic_bound cfg txt reqs sched hW ha hsorted
+    | false =>
+      have h1 : sched = serial reqs.length := Classical.byContradiction fun h => hD (Or.inl ⟨ha, h⟩)
+      subst h1
+      rw [lemma_served_serial] at hsorted
+      exact window_sequential_bound cfg txt reqs hW ha hsorted
+  rw [hb, window_reject_has_retry_after]
   simp [retryOK]
 
-/-- K16b, the race: limit 1, both requests read the count before either increments it — both reach
-    the handler, the oracle fails -/
+/-- K16b, the race on a store that only has the two-call interface: limit 1, both requests read the
+    count before either increments it — both reach the handler, the oracle fails; the same requests
+    and the same schedule over a store that counts atomically: 200, 429 -/
 theorem window_race_witness :
-    let cfg : WinCfg := { limit := 1, W := 3600, headers := true, enforce := true, hasCallback := false }
+    let cfg : WinCfg := { limit := 1, W := 3600, headers := true, enforce := true, hasCallback := false, atomic := false }
     let reqs : List WinReq := [{ key := ['a'], now := 7200000000007 }, { key := ['a'], now := 7200000000008 }]
     let sched := [Op.get 0, Op.get 1, Op.inc 0, Op.inc 1]
     (runWin cfg [] reqs sched).map (fun a => a.2.ran) = [true, true] ∧
     windowBoundOK cfg reqs (runWin cfg [] reqs sched) = false ∧
-    (runWin cfg [] reqs (serial 2)).map (fun a => a.2.status) = [200, 429] := by
+    (runWin cfg [] reqs (serial 2)).map (fun a => a.2.status) = [200, 429] ∧
+    (runWin { cfg with atomic := true } [] reqs sched).map (fun a => a.2.status) = [200, 429] ∧
+    windowBoundOK { cfg with atomic := true } reqs (runWin { cfg with atomic := true } [] reqs sched) = true := by
   decide
 
-/-- K16b, Retry-After: limit 2, window 2 s. The third request is rejected with `Retry-After: 2`; the
-    retry 2.003 s later (no other traffic) falls 0.103 s into the next window, where the three counted
-    requests carry over with weight 0.9485 — usage 2.8 — and is rejected again -/
+/-- one-step service as shipped (no idle-gap test in the roll, `Retry-After` = time to the end of the
+    fixed window) -/
+def serve1AsIs (cfg : WinCfg) (txt : Bytes) (st : WinStore) (q : WinReq) : WinStore × WinObs :=
+  (st.set q.key (incrAsIs cfg.W (some (getCountsAsIs cfg.W (st.lookup q.key) q.now)) q.now),
+   winAnswerAsIs cfg txt (decide_ cfg.limit cfg.W (getCountsAsIs cfg.W (st.lookup q.key) q.now) q.now))
+
+def runSerialAsIs (cfg : WinCfg) (txt : Bytes) : WinStore → Nat → List WinReq → List (Nat × WinObs)
+  | _, _, [] => []
+  | st, i, q :: rest => (i, (serve1AsIs cfg txt st q).2) :: runSerialAsIs cfg txt (serve1AsIs cfg txt st q).1 (i + 1) rest
+
+/-- K16b, Retry-After as shipped: limit 2, window 2 s. The third request is rejected with
+    `Retry-After: 2`; the retry 2.003 s later (no other traffic) falls 0.103 s into the next window,
+    where the three counted requests carry over with weight 0.9485 — usage 2.8 — and is rejected again.
+    Repaired: the third request is told `Retry-After: 3`, and the retry 3 s later is admitted. -/
 theorem window_retry_untruthful_witness :
     let cfg : WinCfg := { limit := 2, W := 2, headers := true, enforce := true, hasCallback := false }
     let reqs : List WinReq := [{ key := ['a'], now := 10100000000 }, { key := ['a'], now := 10101000000 },
                                { key := ['a'], now := 10102000000 }, { key := ['a'], now := 12105000000 }]
-    (runWin cfg [] reqs (serial 4)).map (fun a => (a.2.status, a.2.retryAfter)) =
+    let reqs' : List WinReq := [{ key := ['a'], now := 10100000000 }, { key := ['a'], now := 10101000000 },
+                               { key := ['a'], now := 10102000000 }, { key := ['a'], now := 13102000000 }]
+    (runSerialAsIs cfg [] [] 0 reqs).map (fun a => (a.2.status, a.2.retryAfter)) =
       [(200, none), (200, none), (429, some 2), (429, some 2)] ∧
-    retryOK reqs (runWin cfg [] reqs (serial 4)) [(2, 3)] = false := by
+    retryOK reqs (runSerialAsIs cfg [] [] 0 reqs) [(2, 3)] = false ∧
+    (runWin cfg [] reqs' (serial 4)).map (fun a => (a.2.status, a.2.retryAfter)) =
+      [(200, none), (200, none), (429, some 3), (200, none)] ∧
+    retryOK reqs' (runWin cfg [] reqs' (serial 4)) [(2, 3)] = true := by
+  decide
+
+/-- the idle-gap part of the repair: as shipped, an entry that had been idle for many windows still
+    carried its old count into the window of the next request (limit 2, window 2 s, three requests,
+    then one 20 s later: rejected); repaired, it is admitted -/
+theorem window_idle_gap_witness :
+    let cfg : WinCfg := { limit := 2, W := 2, headers := true, enforce := true, hasCallback := false }
+    let reqs : List WinReq := [{ key := ['a'], now := 10100000000 }, { key := ['a'], now := 10101000000 },
+                               { key := ['a'], now := 10102000000 }, { key := ['a'], now := 30000000000 }]
+    (runSerialAsIs cfg [] [] 0 reqs).map (fun a => a.2.status) = [200, 200, 429, 429] ∧
+    (runWin cfg [] reqs (serial 4)).map (fun a => a.2.status) = [200, 200, 429, 200] := by
   decide
 
 /-! ## witnesses and non-vacuity -/
